@@ -480,13 +480,22 @@ impl Quantity {
             return QuantityOrdering::NanOperand;
         }
 
-        let Ok(other_converted) = other.convert_to(self.unit()) else {
-            return QuantityOrdering::IncompatibleUnits;
+        // A zero on the left-hand side can be a polymorphic zero that does not carry the
+        // unit of the other operand (`0 < 1 m`). Compare in the unit of `other` in that case.
+        let (lhs_value, rhs_value) = if self.is_zero() {
+            let Ok(self_converted) = self.convert_to(other.unit()) else {
+                return QuantityOrdering::IncompatibleUnits;
+            };
+            (self_converted.value, other.value)
+        } else {
+            let Ok(other_converted) = other.convert_to(self.unit()) else {
+                return QuantityOrdering::IncompatibleUnits;
+            };
+            (self.value, other_converted.value)
         };
 
-        let cmp = self
-            .value
-            .partial_cmp(&other_converted.value)
+        let cmp = lhs_value
+            .partial_cmp(&rhs_value)
             .expect("unexpectedly got a None partial_cmp from non-NaN arguments");
 
         QuantityOrdering::Ok(cmp)
